@@ -131,5 +131,5 @@ ConfigSpace(tier) ==
     IF tier = "nv" THEN UNION {EntryFam(Ut, 2), ResCentric(Uq, 2), TwoFlows(2), SelfRef}
     ELSE IF tier = "quick" THEN UNION {ReqCentric(Uq, 3), ResCentric(Uq, 3), EntryFam(Ut, 3), TwoFlows(1), SelfRef, Bad}
     ELSE IF tier = "mid" THEN UNION {ReqCentric(Ut, 3), ResCentric(Ut, 3), TwoFlows(2), SelfRef, Bad}
-    ELSE UNION {ReqCentric(Ut, 4), ResCentric(Ut, 4), ReqCentric(Ul, 3), TwoFlows(3), SelfRef, Bad}
+    ELSE UNION {ReqCentric(Ut, 3), EntryFam(Ut, 4), ResCentric(Ut, 3), EntryFam(Ul, 3), TwoFlows(3), SelfRef, Bad}
 =============================================================================
